@@ -9,7 +9,7 @@ from ..runner import Acc, watchdog, Hang
 
 ID = 'C10'
 LEVEL = 'model_checking'
-RULE = ('seed sentences: EVERY clause or directive of the documented grammar with <= N tokens over one representative '
+RULE = ('(before a text outside the language is compiled, the text obtained by gluing its blank-separated words together - often a valid program - is compiled, so that nothing remembered from one text can vouch for another) seed sentences: EVERY clause or directive of the documented grammar with <= N tokens over one representative '
         'per token class, every two-clause program built from the clauses of <= 4 tokens, and the repository\'s sample '
         'files; for each seed EVERY single edit: delete / duplicate token i, swap tokens i,i+1, replace token i by the '
         'other members of its class, insert each of the 21 token kinds and each of 32 foreign character sequences (ASCII and non-ASCII look-alikes of lexicon characters) at '
@@ -138,11 +138,22 @@ def defined_functions(pytext):
     return sorted(n.name for n in tree.body if isinstance(n, ast.FunctionDef))
 
 
+_GLUE = re.compile(r'(\w)[ \t\n]+(\w)')
+
+
 def check_text(text):
     """-> (status, sig, detail, outcome) status in ok|violation"""
     r = rg.analyse(text)
     raised = None
     out = None
+    if not r.accepted and _GLUE.search(text):
+        # the same characters WITHOUT the blanks between two words (a different text, often a valid
+        # one: "p(a b)." -> "p(ab).") are compiled first: what the compiler did for one text is no
+        # reason to accept another
+        try:
+            impl.compile_text(_GLUE.sub(r'\1\2', text))
+        except Exception:  # noqa: BLE001
+            pass
     try:
         out = impl.compile_text(text)
     except Exception as e:  # noqa: BLE001
